@@ -244,8 +244,27 @@ pub fn iter_protocol_with<T, I: Iterator<Item = T>>(
         let pp = |p: Option<embedded_graphics::geometry::Point>| p.map(|p| json!([p.x, p.y])).unwrap_or(json!([]));
         mixed.push(json!([k, c, l, fc, pp(ff), pp(fl), sc]));
     }
+    // indices beyond the u32 range (an nth() override that computes in 32 bits wraps them back into the sequence):
+    // [index code, items already pulled with next(), nth(index).is_some(), skip(index).count()]
+    let mut huge = vec![];
+    if cnt <= 1 << 22 {
+        for (code, idx) in [(1usize << 32), (1 << 32) + 1, (1 << 32) + 3, (1 << 33) + cnt.saturating_sub(1), (1 << 40) + 2, usize::MAX - 1, usize::MAX].into_iter().enumerate() {
+            for pulled in [0usize, 1] {
+                let adv = || {
+                    let mut it = mk();
+                    for _ in 0..pulled {
+                        it.next();
+                    }
+                    it
+                };
+                let some = adv().nth(idx).is_some() as i32;
+                let sc = adv().skip(idx).count().min(1 << 30);
+                huge.push(json!([code, pulled, some, sc]));
+            }
+        }
+    }
     json!({"cnt": cnt, "last": last, "lo": lo.min(1 << 30), "hi": hi.map(|h| h.min(1 << 30) as i64).unwrap_or(-1), "stride": stride, "walk": walk,
-           "after": after, "k": k, "mlo": mlo.min(1 << 30), "mhi": mhi.map(|h| h.min(1 << 30) as i64).unwrap_or(-1), "mixed": mixed})
+           "after": after, "k": k, "mlo": mlo.min(1 << 30), "mhi": mhi.map(|h| h.min(1 << 30) as i64).unwrap_or(-1), "mixed": mixed, "huge": huge})
 }
 pub fn iter_protocol<I: Iterator<Item = embedded_graphics::geometry::Point>>(mk: impl Fn() -> I, stride: usize) -> serde_json::Value {
     iter_protocol_with(mk, stride, |p| *p)
